@@ -1123,7 +1123,10 @@ pub fn parse(lex_tokens: &Vec<LexerToken>) -> Result<ParseResult, CompilerError>
                     Some(left) => match nodes.get_mut(left) {
                         None => implementation_error_with_token(format!("Index assigned to node has no value in node list. {:?}", left), token)?,
                         Some(left_node) => {
-                            if left_node.definition.is_optional() || left == ended_group {
+                            // an ended group with nothing in it still has the assumed right that was never created
+                            // (a group holding only a side effect already points at that existing node)
+                            let right_not_created = left_node.right.map_or(true, |r| r >= current_id);
+                            if left_node.definition.is_optional() || (left == ended_group && right_not_created) {
                                 left_node.right = None;
                             }
 
